@@ -180,7 +180,18 @@ func (in *Interp) strConcat(a, b *Str) *Str {
 		mx = va.max + vb.max
 	}
 	la := va.length
-	return &Str{kind: sView, length: st.Add(va.length, vb.length), max: mx, origin: "concat", at: func(i *sym.Term) *sym.Term {
+	var parts []*Str
+	if a.parts != nil {
+		parts = append(parts, a.parts...)
+	} else {
+		parts = append(parts, a)
+	}
+	if b.parts != nil {
+		parts = append(parts, b.parts...)
+	} else {
+		parts = append(parts, b)
+	}
+	return &Str{kind: sView, length: st.Add(va.length, vb.length), max: mx, origin: "concat", parts: parts, at: func(i *sym.Term) *sym.Term {
 		if i.IsConst() && la.IsConst() {
 			if i.I < la.I {
 				return va.at(i)
@@ -225,6 +236,11 @@ func (in *Interp) strEq(a, b *Str) *sym.Term {
 		}
 		return st.Or(ds...)
 	}
+	if a.parts != nil || b.parts != nil {
+		if r := in.ropeEq(a, b); r != nil {
+			return r
+		}
+	}
 	// view vs concrete: no bound needed
 	if b.kind == sConc {
 		return in.viewEqConc(in.toView(a), b.conc)
@@ -233,6 +249,9 @@ func (in *Interp) strEq(a, b *Str) *sym.Term {
 		return in.viewEqConc(in.toView(b), a.conc)
 	}
 	va, vb := in.toView(a), in.toView(b)
+	if va.max < 0 && vb.max < 0 {
+		in.tightenMax(va)
+	}
 	n := va.max
 	if n < 0 || (vb.max >= 0 && vb.max < n) {
 		n = vb.max
@@ -593,4 +612,78 @@ func (in *Interp) strSplitByte(s *Str, c int64) []*Str {
 		start = st.Add(end, st.Int(1))
 	}
 	return parts
+}
+
+// ropeEq compares two concatenations segment by segment when their segment boundaries line up
+// (identical length terms). Returns nil when they do not line up (caller falls back to the byte-wise expansion).
+func (in *Interp) ropeEq(a, b *Str) *sym.Term {
+	st := in.St
+	pa, pb := a.parts, b.parts
+	if pa == nil {
+		pa = []*Str{a}
+	}
+	if pb == nil {
+		pb = []*Str{b}
+	}
+	pa = append([]*Str(nil), pa...)
+	pb = append([]*Str(nil), pb...)
+	var conds []*sym.Term
+	i, j := 0, 0
+	for i < len(pa) && j < len(pb) {
+		x, y := pa[i], pb[j]
+		if x == y {
+			i++
+			j++
+			continue
+		}
+		if x.kind == sConc && x.conc == "" {
+			i++
+			continue
+		}
+		if y.kind == sConc && y.conc == "" {
+			j++
+			continue
+		}
+		if x.kind == sConc && y.kind == sConc {
+			n := len(x.conc)
+			if len(y.conc) < n {
+				n = len(y.conc)
+			}
+			if x.conc[:n] != y.conc[:n] {
+				return st.False
+			}
+			if len(x.conc) == n {
+				i++
+			} else {
+				pa[i] = concStr(x.conc[n:])
+			}
+			if len(y.conc) == n {
+				j++
+			} else {
+				pb[j] = concStr(y.conc[n:])
+			}
+			continue
+		}
+		if x.kind == sAtom || y.kind == sAtom {
+			return nil
+		}
+		lx, ly := in.strLen(x), in.strLen(y)
+		if lx == ly {
+			if x.parts != nil || y.parts != nil {
+				return nil
+			}
+			conds = append(conds, in.strEq(x, y))
+			i++
+			j++
+			continue
+		}
+		return nil
+	}
+	for ; i < len(pa); i++ {
+		conds = append(conds, st.Eq(in.strLen(pa[i]), st.Int(0)))
+	}
+	for ; j < len(pb); j++ {
+		conds = append(conds, st.Eq(in.strLen(pb[j]), st.Int(0)))
+	}
+	return st.And(conds...)
 }
